@@ -1,8 +1,89 @@
-(* C04 — property theorems only (see RingConcModel.v for the model, DESIGN.md Appendix B). *)
-From Coq Require Import ZArith List Bool.
-From Zix Require Import RingConcModel RingConcProofs0.
+(* C04 — "Ring is a correct single-producer/single-consumer channel on every schedule".
+   Property theorems only.  Model: RingConcModel.v (micro-step release/acquire semantics of
+   src/ring.c, DESIGN.md Appendix B).  Every theorem quantifies over
+     - all ring sizes 2^k, 0 <= k <= 31 (zix_ring_new rounds every size in [1, 2^31] to one of them),
+     - all writer and reader programs, given as strategies (the next call may depend on all earlier results),
+     - all schedules: which thread performs its next shared access, and which entry of the peer head's
+       modification order (any one at or after the thread's view: stale values) an acquire load returns.
+   Since every prefix of a schedule is a schedule, each statement holds at every moment of every execution.
+   PARTIAL with respect to the property text: adequacy of this model for C11 and the compiler is trusted. *)
+From Coq Require Import ZArith List Bool Arith.
+From Zix Require Import RingConcModel RingConcProofs0 RingConcProofsB RingConcProofsC RingConcProofsF.
 Import ListNotations.
 Local Open Scope Z_scope.
+
+(* the execution contains no data race: no plain buffer access conflicts with an access of the other
+   thread that is not ordered before it by an acquired release store *)
+Theorem ring_no_race : forall k wp rp sched, 0 <= k <= 31 ->
+  race (sm (run (faithful k) wp rp sched)) = false.
+Proof. intros. apply no_race. apply faithful_good. assumption. Qed.
+Print Assumptions ring_no_race.
+
+(* walking the reader's results in call order over the committed byte stream: every successful read and
+   peek returned exactly the committed bytes at the current stream position (nothing duplicated, reordered,
+   torn, or seen before its commit), reads and skips advance the position and never pass the committed end.
+   If the reader never skips, the bytes returned by its reads, concatenated, are a prefix of the bytes of
+   committed writes, concatenated. *)
+Theorem ring_reads_prefix_of_commits : forall k wp rp sched, 0 <= k <= 31 ->
+  let s := run (faithful k) wp rp sched in
+  stream_ok (committed s) 0 (rev (rresl (sr s))) = true /\
+  (no_skip (rresl (sr s)) = true ->
+   exists rest, committed s = read_bytes (rev (rresl (sr s))) ++ rest).
+Proof.
+  intros k wp rp sched Hk s. split.
+  - exact (reads_stream_ok (faithful k) wp rp sched (faithful_good k Hk)).
+  - exact (reads_prefix (faithful k) wp rp sched (faithful_good k Hk)).
+Qed.
+Print Assumptions ring_reads_prefix_of_commits.
+
+(* nothing is lost: once both sides are idle the ring holds exactly the committed bytes not yet consumed
+   (the statement in fact holds at every moment for the bytes between the two published heads) *)
+Theorem ring_nothing_lost : forall k wp rp sched, 0 <= k <= 31 ->
+  let s := run (faithful k) wp rp sched in
+  both_idle wp rp s ->
+  contents (faithful k) s = skipn (Z.to_nat (consumed (rresl (sr s)))) (committed s).
+Proof.
+  intros k wp rp sched Hk s _. exact (nothing_lost (faithful k) wp rp sched (faithful_good k Hk)).
+Qed.
+Print Assumptions ring_nothing_lost.
+
+(* wait-freedom: at every moment the micro-steps the current call of either thread has taken, plus those
+   it still needs (a function of its control state alone), are bounded by a function of the call's size
+   argument only (size + 3 at most) -- whatever the other thread does, for every memory-order configuration *)
+Theorem ring_wait_free : forall c wp rp sched,
+  let s := run c wp rp sched in
+  (forall call rest, wcalls (sw s) = call :: rest ->
+     (wsteps (sw s) + wremaining (wpcs (sw s)) <= wbound call)%nat) /\
+  (forall call rest, rcalls (sr s) = call :: rest ->
+     (rsteps (sr s) + rremaining (rpcs (sr s)) <= rbound call)%nat).
+Proof.
+  intros c wp rp sched s. destruct (run_wait_free c wp rp sched) as ((Hw & _) & (Hr & _)). fold s in Hw, Hr.
+  split; intros call rest E.
+  - rewrite E in Hw. exact Hw.
+  - rewrite E in Hr. exact Hr.
+Qed.
+Print Assumptions ring_wait_free.
+
+(* ... and there is no waiting step: whenever a thread that is inside a call is scheduled, the number of
+   micro-steps that call still needs strictly decreases (no loop on shared state) *)
+Theorem ring_wait_free_progress : forall c wp rp sched k,
+  let s := run c wp rp sched in
+  (wpcs (sw s) <> WIdle ->
+     (wremaining (wpcs (sw (step c wp rp s (true, k)))) < wremaining (wpcs (sw s)))%nat) /\
+  (rpcs (sr s) <> RIdle ->
+     (rremaining (rpcs (sr (step c wp rp s (false, k)))) < rremaining (rpcs (sr s)))%nat).
+Proof.
+  intros c wp rp sched k s. destruct (run_wait_free c wp rp sched) as (Hw & Hr). fold s in Hw, Hr.
+  split; intros Hn; unfold step; cbn [fst snd].
+  - apply wstep_progress; assumption.
+  - apply rstep_progress; assumption.
+Qed.
+Print Assumptions ring_wait_free_progress.
+
+(* the invariant of DESIGN.md Appendix B holds in every reachable state (the lemma the above rest on) *)
+Theorem ring_invariant : forall k wp rp sched, 0 <= k <= 31 -> Inv (faithful k) (run (faithful k) wp rp sched).
+Proof. intros. apply run_inv. apply faithful_good. assumption. Qed.
+Print Assumptions ring_invariant.
 
 (* why the orders matter: with the commit store (or the reader's store) downgraded to relaxed the
    very same model admits a data race *)
@@ -13,3 +94,16 @@ Proof.
   split; do 3 eexists; [exact relaxed_commit_races | exact relaxed_read_store_races].
 Qed.
 Print Assumptions ring_relaxed_refuted.
+
+(* ---- the statements are not vacuous: a run with a transaction, a wrapping write, a stale load and a
+   peek/skip, in which data really flows *)
+Example ring_example :
+  let wp := wprog_of_list [WWrite [1; 2; 3]; WBegin; WAmend [4]; WAmend [5]; WCommit; WWrite [6; 7]] in
+  let rp := rprog_of_list [RRead 2; RPeek 1; RSkip 1; RRead 2; RRead 2] in
+  let sched := repeat (true, O) 6 ++ repeat (false, O) 11 ++ repeat (true, 1%nat) 7 ++ repeat (false, O) 5
+               ++ repeat (true, O) 5 ++ repeat (false, O) 5 in
+  let s := run (faithful 2) wp rp sched in
+  rev (rresl (sr s)) = [RrRead 2 [1; 2]; RrPeek 1 [3]; RrSkip 1; RrRead 2 [4; 5]; RrRead 2 [6; 7]] /\
+  committed s = [1; 2; 3; 4; 5; 6; 7] /\ contents (faithful 2) s = [] /\ both_idle wp rp s /\
+  race (sm s) = false.
+Proof. vm_compute. repeat split; reflexivity. Qed.
